@@ -16,7 +16,8 @@ pub struct Opts {
     pub replay: Option<u64>,
 }
 
-const ALPHA: &[char] = &['a', 'b', 'c', 'A', 'B', ' ', '/', '-', '\u{e9}', '\u{c9}', '1'];
+// (includes KELVIN SIGN, ANGSTROM SIGN, LONG S and the letters they fold to)
+const ALPHA: &[char] = &['a', 'b', 'c', 'A', 'B', ' ', '/', '-', '\u{e9}', '\u{c9}', '1', 'k', 's', '\u{212a}', '\u{212b}', '\u{17f}', '\u{e5}'];
 const WORD_EXTRA: &[char] = &['\n', '\r'];
 
 fn gen_word(rng: &mut Rng, max: usize) -> String {
